@@ -293,15 +293,26 @@ def check_deepcopy_protocol(ctx) -> None:
 def check_fresh(ctx) -> None:
     prog, inf = ctx.prog, ctx.inf
     fn = prog.func("cobra.core.model", "Model.copy")
+    n0, d0 = len(ctx.findings), len(ctx.deferred)
     check_copy_graph(ctx)
+    graph_failed = len(ctx.findings) > n0 or len(ctx.deferred) > d0
     ctx.guard(check_species_copy, ctx)
     ctx.guard(check_deepcopy_protocol, ctx)
     # the per-attribute reading below needs the familiar form of the function (five `for ... in X.__dict__` loops in
-    # Model.copy itself); any other spelling is decided by the evaluated clause above alone
+    # Model.copy itself) and only explains: it reports when the evaluated object-graph clause finds sharing as well
+    held = []
+    ctx.bad = lambda *a, **k: held.append((a, k))  # type: ignore[method-assign]
     try:
         _check_fresh_shape(ctx)
     except AnalysisError as exc:
         ctx.note(f"C12.fresh: per-attribute reading skipped ({exc}); Model.copy is decided by the evaluated object-graph clause")
+    finally:
+        del ctx.bad
+    for a, k in held:
+        if graph_failed:
+            ctx.bad(*a, **k)
+        else:
+            ctx.note(f"structural reading not confirmed by the evaluated object graph (no report): {a[3] if len(a) > 3 else a}"[:300])
 
 
 def _check_fresh_shape(ctx) -> None:
